@@ -82,28 +82,48 @@ def dtype_stream(ctx):
 
 
 def scaler_stream(ctx):
-    """with a gradient scaler returning s, the G batch moment is cov(g / s)"""
+    """with a gradient scaler, G's batch moment is the mean over the accumulated micro-batches of
+    cov(g_i / s_i), s_i the loss scale in force at micro-batch i (it may change between micro-batches:
+    dynamic loss scaling, or any callable).  Oracle: the same model without scaler on unscaled losses."""
     from kfac.preconditioner import KFACPreconditioner
     rng = ctx.rng
-    for _ in range(ctx.budget(6, 40)):
-        sc = rng.choice([2.0, 8.0, 1024.0, 0.5])
+    for _ in range(ctx.budget(16, 120)):
+        accum = rng.choice([1, 2, 3])
+        hook = rng.random() < 0.5
+        vary = accum > 1 and rng.random() < 0.7
+        s0 = rng.choice([2.0, 8.0, 1024.0, 0.5])
+        scales = [rng.choice([2.0, 8.0, 1024.0, 0.5, 65536.0]) if vary else s0 for _ in range(accum)]
         torch.manual_seed(rng.randrange(10**6))
         m = torch.nn.Sequential(torch.nn.Linear(3, 2)).double()
         m2 = torch.nn.Sequential(torch.nn.Linear(3, 2)).double()
         m2.load_state_dict(m.state_dict())
-        p1 = KFACPreconditioner(m, grad_scaler=lambda: sc, factor_decay=0.5, kl_clip=None)
-        p2 = KFACPreconditioner(m2, factor_decay=0.5, kl_clip=None)
-        x = torch.randn(4, 3, dtype=torch.float64)
-        (m(x).pow(2).sum() * sc).backward()     # scaled loss
-        m2(x).pow(2).sum().backward()
-        p1.step()
-        p2.step()
-        g1 = p1.state_dict()['layers']['0']['G']
-        g2 = p2.state_dict()['layers']['0']['G']
-        if kfacsim.relerr(g1, g2) > 1e-12:
-            ctx.fail(f'G factor with loss scale {sc} is not the factor of the unscaled gradients', {'scale': sc}, 'loss-scale')
+        cell = [scales[0]]
+        case = {'scales': scales, 'accumulation': accum, 'update_factors_in_hook': hook}
+        try:
+            p1 = KFACPreconditioner(m, grad_scaler=lambda: cell[0], factor_decay=0.5, kl_clip=None,
+                                    accumulation_steps=accum, update_factors_in_hook=hook)
+            p2 = KFACPreconditioner(m2, factor_decay=0.5, kl_clip=None, accumulation_steps=accum,
+                                    update_factors_in_hook=hook)
+            for _step in range(2):
+                for sc in scales:
+                    cell[0] = sc
+                    x = torch.randn(4, 3, dtype=torch.float64)
+                    (m(x).pow(2).sum() * sc).backward()     # scaled loss
+                    m2(x).pow(2).sum().backward()
+                p1.step()
+                p2.step()
+                g1 = p1.state_dict()['layers']['0']['G']
+                g2 = p2.state_dict()['layers']['0']['G']
+                a1 = p1.state_dict()['layers']['0']['A']
+                a2 = p2.state_dict()['layers']['0']['A']
+                if kfacsim.relerr(g1, g2) > 1e-12 or kfacsim.relerr(a1, a2) > 1e-12:
+                    ctx.fail(f'G factor with loss scales {scales} (one per micro-batch) is not the factor of the unscaled gradients',
+                             case, 'loss-scale')
+                    break
+        except Exception as e:  # noqa: BLE001
+            ctx.fail(f'scaler stream raised {type(e).__name__}: {e}', case, 'loss-scale-raised')
         ctx.evaluations += 1
-        ctx.count('scaler-stream')
+        ctx.count('scaler-stream-accum%d%s' % (accum, '-varying' if vary else ''))
 
 
 def update_stream(ctx):
